@@ -135,6 +135,8 @@ def _templates():
         add(f"mergeC-{how}-filter-key-isna", [mc(), S("v2", "filter_pred", ["v1"], pred={"or": [{"col": "q", "f": "isna"}, P("ge", "k", 2)]})])
     add("merge-both-suffixed", [S("v1", "merge", ["A", "B"], on=["k"], how="inner", suffixes=None, broadcast=None, shuffle_method=None), S("v2", "cols", ["v1"], cols=["f_x", "f_y"])])
     add("merge-suffix-empty", [S("v1", "merge", ["A", "B"], on=["k"], how="left", suffixes=["", "_r"], broadcast=None, shuffle_method=None), S("v2", "filter_pred", ["v1"], pred=P("gt", "f", 0)), S("v3", "cols", ["v2"], cols=["f", "f_r", "k"])])
+    for how in ("left", "right"):
+        add(f"merge-{how}-suffix-empty-right", [S("v1", "merge", ["A", "B"], on=["k"], how=how, suffixes=["_l", ""], broadcast=None, shuffle_method=None), S("v2", "filter_pred", ["v1"], pred=P("gt", "f", 0)), S("v3", "cols", ["v2"], cols=["f", "f_l", "k"])])
     add("merge-broadcast", [S("v1", "merge", ["A", "B"], on=["k"], how="inner", suffixes=None, broadcast=True, shuffle_method=None), S("v2", "cols", ["v1"], cols=["k", "rid_x", "rid_y"])])
     add("merge-tasks-two-keys", [S("v1", "merge", ["A", "B"], on=["k", "s"], how="outer", suffixes=None, broadcast=False, shuffle_method="tasks")])
     add("merge-self", [S("v1", "cols", ["A"], cols=["k", "f", "rid"]), S("v2", "merge", ["v1", "v1"], on=["k"], how="inner", suffixes=None, broadcast=None, shuffle_method=None), S("v3", "cols", ["v2"], cols=["f_x", "rid_y"])])
